@@ -97,6 +97,15 @@ def main():
                 jit = None if r.chance(0.2) else "%d:%d:%d" % (r.randint(1, 10 ** 6), r.choice([10, 100, 300]), r.choice([50, 3000]))
                 jobs.append((k, hydro_cfg(r, l, p), th, jit, r.choice([3, 4, 5]), exe, root, False))
                 k += 1
+        # long runs: many consecutive steps with many threads on layouts with many pair tasks (races whose window is a
+        # single instruction, e.g. in the parent counter protocol, need many task completions to show)
+        for j in range(6 if quick else 40):
+            r = rng.fork("l%d" % j)
+            l = r.choice([(3, 3, 3), (2, 3, 4), (4, 2, 2), (3, 2, 2), (4, 4, 1), (2, 2, 2)])
+            p = r.choice(pers)
+            jit = None if j % 2 == 0 else "%d:%d:%d" % (r.randint(1, 10 ** 6), 5, 50)
+            jobs.append((k, hydro_cfg(r, l, p), r.choice([4, 8, 16]), jit, 150 if quick else 400, exe, root, False))
+            k += 1
         nts = 8 if quick else 60
         for j in range(nts):
             r = rng.fork("t%d" % j)
